@@ -254,13 +254,13 @@ def kw_weltarg(draw, m):
 @st.composite
 def kw_wefac(draw, m):
     w = draw(st.sampled_from(sorted(m.wells)))
-    return "WEFAC\n '%s' %s /\n/\n" % (w, fnum(draw(frac)))
+    return "WEFAC\n '%s' %s%s /\n/\n" % (w, fnum(draw(frac)), draw(st.sampled_from(["", "", " 'YES'", " 'NO'"])))
 
 
 @st.composite
 def kw_gefac(draw, m):
     g = draw(st.sampled_from(sorted(g for g in m.groups if g != "FIELD")))
-    return "GEFAC\n '%s' %s /\n/\n" % (g, fnum(draw(frac)))
+    return "GEFAC\n '%s' %s%s /\n/\n" % (g, fnum(draw(frac)), draw(st.sampled_from(["", "", " 'YES'", " 'NO'"])))
 
 
 @st.composite
